@@ -14,4 +14,4 @@ for P in "$@"; do
   cd /verif && VERIF_REPO="$WT" VERIF_WORK=$W VERIF_EVID=$W/evidence ./run check "$P" --tier quick > $W/$P.out 2>&1
   echo "== $ID check $P rc=$?"; grep -E "^(VIOLATION|KNOWN|DEGRADED|INCONCLUSIVE|property=)" $W/$P.out | cut -c1-230 | head -8
 done
-cd "$WT" && git checkout -q -- .
+cd "$WT" && git checkout -q -- .; rm -rf $W/kani-target $W/kani-crate
